@@ -72,7 +72,7 @@ var special = map[string]bool{"script": true, "style": true, "title": true, "tex
 
 func tagName(t *rapid.T) string {
 	for {
-		n := rapid.OneOf(rapid.SampledFrom([]string{"a", "b", "div", "p", "br", "img", "h1", "x-y", "scriptx", "styl", "svgs", "mat", "textare", "tit"}), rapid.StringMatching(`[a-z][a-z0-9-]{0,5}`)).Draw(t, "tag")
+		n := rapid.OneOf(rapid.SampledFrom([]string{"a", "b", "div", "p", "br", "img", "h1", "x-y", "scriptx", "styl", "svgs", "mat", "textare", "tit", "custom-element", "x[0]yzabc", "blockquote", "my@tag`x{y"}), rapid.StringMatching(`[a-z][a-z0-9-]{0,5}`)).Draw(t, "tag")
 		if !special[n] {
 			return randCase(t, n)
 		}
@@ -252,7 +252,9 @@ func (g *docgen) attributes(max int) (needWS bool) {
 	for k := rapid.IntRange(0, max).Draw(t, "nattr"); k > 0; k-- {
 		lead := wsp(t, 1)
 		useTmpl := g.tmpl[0] != "" && rapid.IntRange(0, 2).Draw(t, "attrtmpl") == 0
-		name := rapid.OneOf(rapid.SampledFrom([]string{"a", "href", "data-x", "x:y", "@click", "v-on:a.b", "_", "A1", "class", "onclick"}), rapid.StringMatching(`[a-zA-Z][a-zA-Z0-9_:.-]{0,5}`)).Draw(t, "attr")
+		name := rapid.OneOf(rapid.SampledFrom([]string{"a", "href", "data-x", "x:y", "@click", "v-on:a.b", "_", "A1", "class", "onclick",
+			// names of eight and more bytes with the characters next to the letters in ASCII (@ [ ` {) at every position of a word
+			"[ngModel]", "(click)", "[(ngModel)]", "[hidden]", "@click.prevent", "*ngFor", "[class.is-active]", "data-long-name[0]", "xmlns:xlink", "{curly}name", "back`tick`name", "aria-labelledby", "@@@@@@@@", "[[[[[[[[[", "ZZZZZZZ[Z", "z{z{z{z{z"}), rapid.StringMatching(`[a-zA-Z][a-zA-Z0-9_:.-]{0,5}`)).Draw(t, "attr")
 		name = randCase(t, name)
 		key := lower(name)
 		hasTmpl := false
